@@ -419,7 +419,7 @@ func c07PanicTyping(w *World, r *Report) {
 			ast.Inspect(fd.Body, func(y ast.Node) bool {
 				if as, isA := y.(*ast.AssignStmt); isA && len(as.Rhs) == 1 && objOfIdent(p, as.Lhs[0]) == locObj {
 					if c2, isC2 := as.Rhs[0].(*ast.CallExpr); isC2 {
-						if c := calleeOf(p, c2); c != nil && strings.HasPrefix(c.Name(), "ErrorContext") {
+						if c := calleeOf(p, c2); c != nil && strings.HasPrefix(nm(c), "ErrorContext") {
 							fromCtx = true
 						}
 					}
